@@ -149,7 +149,7 @@ def float_texts(d):
 
 
 POINT_TEXTS = ["1,2", "2,1", "3,3", "1,1", " 1,2", "1,2 ", "1, 2", "1,2,3", "1", "", ",", "a,b", "1;2", "-1,1", "1,-1", "+1,+2",
-               "99999999999,1", "2147483647,-2147483648", "1,2\n", "0x1,2", "1_0,2", "١,٢"]
+               "99999999999,1", "2147483647,-2147483648", "1,2\n", "0x1,2", "1_0,2", "١,٢", "2;1", " 2,1 ", "3;3", "\t1,2"]
 
 
 def rows_parse(d, rng):
